@@ -214,7 +214,9 @@ func c13Check(l *explore.Local, _ struct{}, c c13Case) *explore.Fail {
 					return f
 				}
 				lcdc := m.Map.Read(0xff40)
-				m.Map.Write(0xff40, lcdc&0x7f)
+				// any value with bit 7 clear switches the LCD off: the other seven bits take turns
+				offVal := []uint8{lcdc & 0x7f, 0x7f, 0x40, 0x01, 0x00, 0x53}[(p+k)%6]
+				m.Map.Write(0xff40, offVal)
 				for i := 0; i <= k; i++ {
 					if ly, mode := obs(m); ly != 0 || mode != 0 {
 						return fail(explore.Failf("LCD off: LY/mode not 0", "%d cycles after switching off: LY=%d mode=%d", i, ly, mode))
@@ -280,12 +282,20 @@ type c14Case struct {
 	// Junk: STAT is written with bit 7 and the read-only bits 0-2 set as well (what a read-modify-write of STAT stores);
 	// only bits 3-6 select sources
 	Junk bool `json:"junk_bits,omitempty"`
+	// Timer: the whole hardware is stepped (not only the PPU) with the timer running fast (TAC=05, TMA=F0): timer
+	// overflows request the timer interrupt only; VBlank and STAT requests stay exactly where they belong
+	Timer bool `json:"timer,omitempty"`
 	// Irq: 0 = master enable set, IE = 00 (the state after start-up); 1 = master enable clear, IE = 1F; 2 = master
 	// enable set, IE = 1F. Requests are latched in IF whatever IME and IE say (only the PPU is stepped: nothing dispatches)
 	Irq int `json:"irq,omitempty"`
 }
 
 func (c c14Case) irqSetup(m *machine.M) {
+	if c.Timer {
+		m.Map.Write(0xff06, 0xf0)
+		m.Map.Write(0xff05, 0xf0)
+		m.Map.Write(0xff07, 0x05)
+	}
 	if c.Irq == 1 {
 		m.I.Disable()
 	}
@@ -413,7 +423,8 @@ func c14Run(l *explore.Local, m *machine.M, lm *lineMon, c c14Case, t0 int) *exp
 		} else if t == c.OffAt {
 			lcdc := m.Map.Read(0xff40)
 			m.Map.Write(0xff0f, 0)
-			m.Map.Write(0xff40, lcdc&0x7f)
+			// any value with bit 7 clear switches the LCD off
+			m.Map.Write(0xff40, []uint8{lcdc & 0x7f, 0x7f, 0x40, 0x01, 0x00, 0x53}[(c.OffAt+c.OffLen)%6])
 			if f := m.Map.Read(0xff0f) & 3; f != 0 {
 				return explore.Failf("interrupt requested by switching the LCD off", "source %s LYC=%d: IF=%02x right after LCDC bit 7 was cleared at cycle %d", c.Source, c.LYC, f, c.OffAt)
 			}
@@ -431,7 +442,11 @@ func c14Run(l *explore.Local, m *machine.M, lm *lineMon, c c14Case, t0 int) *exp
 			lm.switchOn()
 			prevMode, justOn = 2, true
 		}
-		m.P.EndMachineCycle() // only the PPU is stepped: VBlank/STAT requests come from nowhere else
+		if c.Timer {
+			m.Hardware() // PPU, DMA / cartridge clock, sound, timer -> IF: only IF bits 0 and 1 are looked at below
+		} else {
+			m.P.EndMachineCycle() // only the PPU is stepped: VBlank/STAT requests come from nowhere else
+		}
 		ly, mode := obs(m)
 		iff := m.Map.Read(0xff0f) & 3
 		m.Map.Write(0xff0f, 0)
@@ -615,6 +630,10 @@ func init() {
 								if !yield(c14Case{Source: src, LYC: y, Frames: 3, OffAt: -1, OAM: oam}) {
 									return
 								}
+							}
+							// with the timer overflowing every 64 cycles next to the PPU
+							if !yield(c14Case{Source: src, LYC: y, Frames: 3, OffAt: -1, OAM: 1, Timer: true}) {
+								return
 							}
 							// with the master enable clear / set and every interrupt enabled in IE
 							for irq := 1; irq <= 2; irq++ {
